@@ -90,6 +90,7 @@ type Net struct {
 	Stats         map[string]int64
 	quiet         bool // no random faults (after the fault phase)
 	OnReply       func(c Call)
+	OnStart       func(c Call) // the handler is about to run (Status and Body are not set)
 	HandlerPanics int
 }
 
@@ -257,6 +258,9 @@ func (c *HTTPClient) Do(req *http.Request) (*http.Response, error) {
 		r2 = r2.WithContext(hctx)
 		rec := httptest.NewRecorder()
 		startStamp := simrt.Stamp()
+		if n.OnStart != nil {
+			n.OnStart(Call{From: c.From, To: to, Method: method, Fault: mode, ReqBody: body, Start: startStamp})
+		}
 		e.handler.ServeHTTP(rec, r2)
 		res := rec.Result()
 		rb, _ := io.ReadAll(res.Body)
